@@ -397,6 +397,16 @@ def r1c_compound_kernels(ctx):
                         bad("merge_overlapping", f_merge, f"{_describe(c)}: raises {v}")
                     elif positions(v) != P or any(x > 1 for x in multiset(v).values()) or well_formed(v):
                         bad("merge_overlapping", f_merge, f"{_describe(c)}: -> {_describe(v)}")
+    # the same structural questions on a one-block location (non-empty and zero-length), both strands
+    for (a_, b_) in ((2, 7), (4, 4)):
+        for st in (S["PLUS"], S["MINUS"]):
+            si = mk_single(it, a_, b_, st)
+            for attr, want in (("is_overlapping", False), ("is_contiguous", True), ("num_blocks", 1)):
+                fs_ = ctx.repo.fn(f"{LOC}:SingleInterval.{attr}")
+                n += 1
+                k, v = run(it, fs_, [], {}, si)
+                if k != "ok" or v != want or type(v) is not type(want):
+                    bad(f"SingleInterval.{attr}", fs_, f"SingleInterval({a_},{b_},{st.name}).{attr} -> {k}:{v!r}, expected {want!r}")
     r.count(n)
     for key, (fn, msg) in first_bad.items():
         r.violation("C02.R1c", fn.qual, key, msg, fn)
